@@ -17,7 +17,7 @@ def variant(rng, f, flags):
 
 class Prop(BaseProp):
     id = "C10"
-    groups = ["HashConsts", "ShardLayout", "ShardFacts"]
+    groups = ["HashConsts", "ShardLayout", "ShardFacts", "CrashFacts"]
     prop_file = "Props/C10.v"
     trusted_base = [
         "directory consolidation (mtime order, file deletion) is checked by the direct oracle on real directories; its grouping loop is not modelled in Coq in this revision",
